@@ -33,7 +33,7 @@ CASE_TIMEOUT = 600
 
 
 def plan(seed, tier):
-    n = 40 if tier == "quick" else 600
+    n = 40 if tier == "quick" else 3000
     cases = []
     for i in range(n):
         cases.append({"class": "calibration", "index": i, "folds": int(2 + i % 5), "test_fdr": [0.01, 0.05, 0.2][i % 3],
